@@ -1161,6 +1161,13 @@ class RTCSctpTransport(AsyncIOEventEmitter):
         """
         self._sack_needed = True
 
+        # a TSN this far beyond the cumulative TSN cannot be reported in a
+        # SACK gap block, it is way outside of the receive window
+        if (
+            chunk.tsn - self._last_received_tsn
+        ) % SCTP_TSN_MODULO > 65535 and uint32_gt(chunk.tsn, self._last_received_tsn):
+            return
+
         # mark as received
         if self._mark_received(chunk.tsn):
             return
